@@ -164,8 +164,12 @@ def _add_zids(zdir: Path, page: Page) -> None:
             zid = zid_manager.get_next(note.create_date)
             note.zid = zid
             old_body = note.body.lstrip()
-            if zdt.is_long_date_spec(old_body.split(" ")[0]):
-                old_body = " ".join(old_body.split(" ")[1:])
+            # Only the first line is looked at (the file's first line is
+            # rewritten the same way, see _add_zid_to_line() in handlers).
+            first_line, newline, rest = old_body.partition("\n")
+            if zdt.is_long_date_spec(first_line.split(" ")[0]):
+                first_line = " ".join(first_line.split(" ")[1:])
+                old_body = f"{first_line}{newline}{rest}"
             note.body = f"{zid} {old_body}"
             new_notes.append(note)
     if new_notes:
